@@ -126,12 +126,7 @@ func runC16(c *core.Ctx) {
 	t0 := samlgen.T0
 	deps := []c16Dep{{"sp2048", "", 0}, {"spec256", "", 0}, {"sp2048", "mysession", 10 * time.Minute}, {"spec256", "sess2", 3 * time.Hour}}
 
-	assertionFor := func() *saml.Assertion {
-		return &saml.Assertion{Subject: &saml.Subject{NameID: &saml.NameID{Value: "alice@example.com"}},
-			AttributeStatements: []saml.AttributeStatement{{Attributes: []saml.Attribute{{Name: "urn:oid:uid", FriendlyName: "uid", Values: []saml.AttributeValue{{Value: "alice"}}},
-				{Name: "groups", Values: []saml.AttributeValue{{Value: "users"}, {Value: "admins"}}}}}},
-			AuthnStatements: []saml.AuthnStatement{{SessionIndex: "idx-1"}}}
-	}
+	assertionFor := c16Assertion
 	// present a cookie to a RequireAccount-wrapped handler; report whether the handler ran
 	present := func(m *samlsp.Middleware, cookieName, value string, extra ...*http.Cookie) (ran bool, code int, sess samlsp.Session) {
 		h := m.RequireAccount(http.HandlerFunc(func(w http.ResponseWriter, r *http.Request) {
@@ -626,6 +621,79 @@ func c16Attributes(c *core.Ctx, present func(m *samlsp.Middleware, cookieName, v
 			})
 		}
 	}
+
+	// lifetimes set by hand on the codec and provider (not through samlsp.New), including zero and negative ones: a session is
+	// honoured only while it is no older than the lifetime, whatever the lifetime is
+	c.Group("hand-set-lifetimes")
+	for _, kn := range []string{"sp2048", "spec256"} {
+		for _, life := range []time.Duration{0, -time.Hour, -time.Nanosecond, time.Nanosecond, time.Second, 90 * time.Second, 25 * time.Hour} {
+			for _, where := range []string{"codec+provider", "codec-only"} {
+				for _, age := range []time.Duration{0, time.Second, 2 * time.Second, 89 * time.Second, 92 * time.Second, time.Hour + time.Second, 24 * time.Hour, 26 * time.Hour, 365 * 24 * time.Hour} {
+					kn, life, where, age := kn, life, where, age
+					key := fmt.Sprintf("lifetime/key=%s/maxage=%s/%s/age=%s", kn, life, where, age)
+					c.Case(key, func(t *core.T) {
+						t.NonTrivial()
+						pinAll(t0)
+						m := c16Middleware(c16Dep{kn, "", 0}, c16URL)
+						sp := m.Session.(samlsp.CookieSessionProvider)
+						codec := sp.Codec.(samlsp.JWTSessionCodec)
+						codec.MaxAge = life
+						sp.Codec = codec
+						if where == "codec+provider" {
+							sp.MaxAge = life
+						}
+						m.Session = sp
+						rec := httptest.NewRecorder()
+						var minted string
+						_, p := guard(func() error {
+							return m.Session.CreateSession(rec, httptest.NewRequest("POST", c16URL+"/saml/acs", nil), c16Assertion())
+						})
+						t.Impl(1)
+						if p != "" {
+							t.Outcome("create-panics")
+							return
+						}
+						for _, ck := range rec.Result().Cookies() {
+							if ck.Name == "token" {
+								minted = ck.Value
+							}
+						}
+						if minted == "" {
+							t.Outcome("no-session-cookie")
+							return
+						}
+						pinAll(t0.Add(age))
+						ran, code, _ := present(m, "token", minted)
+						pinAll(t0)
+						t.Impl(1)
+						t.Compared()
+						v := core.DontCare
+						switch {
+						case age > life+time.Second:
+							v = core.MustReject
+						case life >= time.Second && age < life-time.Second:
+							v = core.MustAccept
+						}
+						t.Modelled(v)
+						t.Outcome(fmt.Sprintf("ran=%v", ran))
+						if v == core.MustReject && ran {
+							t.Fail("C16/lifetime/session-honoured-after-its-lifetime", "%s: a session created %s ago is honoured although the configured lifetime is %s (status %d)", key, age, life, code)
+						}
+						if v == core.MustAccept && !ran {
+							t.Fail("C16/lifetime/session-refused-within-its-lifetime", "%s: a session created %s ago is refused although the configured lifetime is %s (status %d)", key, age, life, code)
+						}
+					})
+				}
+			}
+		}
+	}
+}
+
+func c16Assertion() *saml.Assertion {
+	return &saml.Assertion{Subject: &saml.Subject{NameID: &saml.NameID{Value: "alice@example.com"}},
+		AttributeStatements: []saml.AttributeStatement{{Attributes: []saml.Attribute{{Name: "urn:oid:uid", FriendlyName: "uid", Values: []saml.AttributeValue{{Value: "alice"}}},
+			{Name: "groups", Values: []saml.AttributeValue{{Value: "users"}, {Value: "admins"}}}}}},
+		AuthnStatements: []saml.AuthnStatement{{SessionIndex: "idx-1"}}}
 }
 
 func normAttrs(m map[string][]string) map[string][]string {
